@@ -762,8 +762,9 @@ def run_accounts(ctx, only=None):
                         obs[b_].append((len(descr) - 1, observe(b_)))
             except WalletError as e:
                 listed = sum(u['value'] for u in box['w'].utxos(account_id=a))
-                if 0.35 <= r < 0.8 and listed > 20000:
-                    # the account lists unspent outputs worth far more than the payment (at most half of them) and its fee, yet it cannot pay
+                if 0.35 <= r < 0.8 and listed > 20000 and 'unspent' in str(e).lower():
+                    # the account lists unspent outputs worth far more than the payment (at most half of them) and its fee, yet the wallet finds
+                    # nothing to spend (a refusal for another reason - a fee below the minimum rate, say - is a refusal)
                     ctx.violation('an account that lists enough unspent outputs cannot spend them',
                                   {'op': 'accounts', 'hseed': hseed, 'account': a, 'default_account': accts[0], 'witness_type': wt, 'model_op': 'send', 'error': str(e)[:100],
                                    'listed_unspent': listed, 'history': descr[-6:]})
